@@ -59,7 +59,7 @@ func c17r1(c *Ctx, id string) {
 	}
 	var envs []envStore
 	for fn := range callees {
-		if fn == ad || fn.Name() == "applyLogging" {
+		if fn == ad {
 			continue
 		}
 		c.see(fn)
@@ -70,6 +70,24 @@ func c17r1(c *Ctx, id string) {
 			}
 			target := w.Origin(st.Addr)
 			if !strings.HasPrefix(target, "&recv.") {
+				// a store through a pointer that is not a field path of the configuration: if it can point into the
+				// configuration (a scalar reached through a loaded or ranged-over address), nothing shows that it is a
+				// zero-guarded default
+				if _, local := st.Addr.(*ssa.Alloc); local {
+					return
+				}
+				if _, isIdx := st.Addr.(*ssa.IndexAddr); isIdx {
+					return // element of a local array/slice (argument lists)
+				}
+				if fa, isFA := st.Addr.(*ssa.FieldAddr); isFA {
+					if _, onLocal := fa.X.(*ssa.Alloc); onLocal {
+						return
+					}
+				}
+				if _, isBasic := st.Addr.Type().(*types.Pointer).Elem().Underlying().(*types.Basic); isBasic && !strings.HasPrefix(target, "&global(") {
+					n++
+					c.Fail(id, "indirect-store@"+fn.Name(), in.Pos(), "%s writes %s through the pointer %s: an option may be rewritten outside a zero-guarded default", fn.Name(), w.Origin(st.Val), target)
+				}
 				return
 			}
 			path := strings.TrimPrefix(target, "&")
@@ -103,7 +121,14 @@ func c17r1(c *Ctx, id string) {
 					nonZero = false
 				}
 				// exactly one guard besides nothing else
-				extra := len(guardsOf(in.Block())) - 1
+				extra := -1
+				for _, g := range guardsOf(in.Block()) {
+					// "no logger was injected" is not a configuration option: the level default may depend on it
+					if strings.Contains(w.Origin(g.Cond), "logger.Log") {
+						continue
+					}
+					extra++
+				}
 				// a default of reference type is a fresh value, not one shared with other configurations through a
 				// package-level variable (editing one config's default in place would change the "default" of the next)
 				switch elemT.Underlying().(type) {
@@ -412,6 +437,7 @@ func init() {
 	p := registry["C17"]
 	p.Rules = append(p.Rules, RuleDef{ID: "C17.R4", Text: "${VAR} substitution: for every match of the placeholder pattern, when LookupEnv(name) reports the variable as set, ALL occurrences of \"${\"+name+\"}\" are replaced by its value in the text that is finally unmarshalled", Run: c17r4})
 	p.Rules = append(p.Rules, RuleDef{ID: "C17.R6", Text: "an explicitly set value stays what it is: outside package config the configuration is only read — no store into a configuration field, no update of a configuration map (frozen exception: stream.Open disables rollback mitigation for an ephemeral bucket)", Run: configImmutable})
+	p.Rules = append(p.Rules, RuleDef{ID: "C17.R11", Text: "the two-pass load (raw, then with ${VAR} substituted, into the same value) overwrites: no configuration type decodes itself (no Unmarshal*/Decode* method on a type of package config)", Run: noCustomDecoding})
 	p.Rules = append(p.Rules, RuleDef{ID: "C17.R10", Text: "a size string whose numeric part does not parse is an error exactly on the branch on which the parse failed, and a string that is neither integer nor number+unit is fatal", Run: parseFailures})
 	p.Rules = append(p.Rules, RuleDef{ID: "C17.R9", Text: "an override that cannot be parsed is fatal, never silently zero: in every derived-settings getter each parse error reaches a panic along the edges on which it is non-nil; the file backend's file name is returned ⇔ configured and not empty (exhaustive)", Run: overrideParsing})
 	p.Rules = append(p.Rules, RuleDef{ID: "C17.R8", Text: "every unset option is filled with its documented default: for each row of the option table in README.md with a non-zero default, a step that ApplyDefaults calls unconditionally stores exactly that value into the field the key's yaml path denotes, under the zero test of that field only (options whose documented default needs no store are listed with the reason)", Run: documentedDefaults})
